@@ -30,7 +30,7 @@ SAMPLER_DEFAULTS = {
 }
 HISTORY_FREE = ["Halton", "RSequence", "RandomUniform", "ParticleSwarm"]
 ALL_SAMPLERS = list(SAMPLER_DEFAULTS)
-SAMPLER_DEFAULTS.update({"HaltonB": {}, "RSequenceB": {}, "RandomUniformB": {}})
+SAMPLER_DEFAULTS.update({"HaltonB": {}, "RSequenceB": {}, "RandomUniformB": {}, "Ballast": {}})
 
 
 def sampler_class(name):
@@ -46,7 +46,7 @@ def sampler_class(name):
 
     from vf import samplers_extra as sx
 
-    extra = {"HaltonB": sx.HaltonB, "RSequenceB": sx.RSequenceB, "RandomUniformB": sx.RandomUniformB}
+    extra = {"HaltonB": sx.HaltonB, "RSequenceB": sx.RSequenceB, "RandomUniformB": sx.RandomUniformB, "Ballast": sx.Ballast}
     if name in extra:
         return extra[name]
     return {"Halton": h.HaltonSampler, "RSequence": rs.RSequenceSampler, "RandomUniform": ru.RandomUniformSampler,
